@@ -1940,3 +1940,139 @@ Definition rf_sched1 : list pev :=
 Definition rf_sched2 : list pev :=
   [PGossipB (TOk None);
    PEv (CStep 3 ICall); PEv (CStep 3 INone); PEv (CStep 3 (IAns GFail)); PEv (CStep 3 (IBif rf_nob))].
+
+(** ** localHead is two reads: the pending head first, the store head second *)
+
+Definition SH (s : sstate) : N := hgt (s_store s).
+
+(** localHead's result when the pending head was read in one state and the store head in another *)
+Definition read2 (pend st : option hdr) : option hdr := local_head (SState st pend 0).
+
+Lemma read2_height pend st : hgt (read2 pend st) = N.max (hgt st) (hgt pend).
+Proof. unfold read2. change (hgt (local_head (SState st pend 0%Z))) with (L (SState st pend 0%Z)). apply L_max. Qed.
+
+Lemma slh_SH s h : SH s <= SH (set_local_head s h).
+Proof. apply slh_parts. Qed.
+
+Lemma fold_slh_SH l s : SH s <= SH (fold_left set_local_head l s).
+Proof. revert s. induction l as [|h l IH]; intros s; cbn; [lia|]. etransitivity; [apply slh_SH|apply IH]. Qed.
+
+Lemma tail_apply_SH s t : SH s <= SH (tail_apply s t).
+Proof. destruct t as [th|]; cbn; [|lia]. unfold SH. cbn. apply store_append_mono. Qed.
+
+Lemma sync_part_SH s h : SH s <= SH (sync_part s h).
+Proof.
+  unfold sync_part, SH. destruct (s_pend s); [|lia].
+  destruct (N.ltb_spec (hgt (s_store s)) (h_height h)); cbn [andb]; [|lia]. destruct (_ <? _); cbn; lia.
+Qed.
+
+Lemma sync_done_SH s : SH s <= SH (sync_done s).
+Proof.
+  unfold sync_done, SH. destruct (s_pend s) as [pd|]; [|lia].
+  destruct (N.ltb_spec (hgt (s_store s)) (h_height pd)); cbn; lia.
+Qed.
+
+Section tworeads.
+Variable p : params.
+Variable tv : hdr -> hdr -> tvres.
+
+Lemma incoming_SH s h b : SH s <= SH (fst (incoming p tv s h b)).
+Proof.
+  unfold incoming. destruct (local_head s); cbn; [|lia].
+  destruct (Verify _ _ _ _ _) as [e|]; cbn; [|apply slh_SH].
+  destruct (ve_soft e); cbn; [|lia]. destruct (snd b); cbn.
+  - etransitivity; [apply fold_slh_SH|apply slh_SH].
+  - apply fold_slh_SH.
+Qed.
+
+Lemma gossip_SH s h b t : SH s <= SH (fst (gossip p tv s h b t)).
+Proof.
+  unfold gossip. pose proof (incoming_SH s h b) as Hm.
+  destruct (incoming p tv s h b) as [s1 ok]; cbn in *. destruct ok; cbn; [|assumption].
+  destruct t as [|th]; [assumption|]. etransitivity; [eassumption|apply tail_apply_SH].
+Qed.
+
+Lemma after_answer_SH s k a b : SH s <= SH (fst (after_answer p tv s k a b)).
+Proof.
+  unfold after_answer. destruct k as [|sbj].
+  - destruct a as [nh|nh| |]; cbn; try lia.
+    destruct (h_nil nh); cbn; [lia|]. destruct (is_expired _ _ _); cbn; lia.
+  - destruct a as [nh|nh| |]; cbn; try lia.
+    + destruct (h_nil nh); cbn; [lia|]. destruct (_ <=? _); cbn; [lia|apply slh_SH].
+    + destruct (h_nil nh) eqn:Hnil; cbn; [lia|].
+      pose proof (incoming_SH s nh b) as Hm.
+      destruct (incoming p tv s nh b) as [s1 ok]; cbn in *. destruct ok; cbn; [|assumption].
+      rewrite ?Hnil. destruct (_ <=? _); cbn; [assumption|].
+      etransitivity; [eassumption|apply slh_SH].
+Qed.
+
+Lemma tstep_SH c i x c' o : tstep p tv c i x = (c', o) -> SH (c_s c) <= SH (c_s c').
+Proof.
+  unfold tstep, set_pc.
+  destruct (c_pc c i) as [|k|k|k g|k a|net|net|]; destruct x as [| |a'| |b|t];
+    try (intros [= <- <-]; cbn; lia).
+  - destruct (decide p (c_s c)); intros [= <- <-]; cbn; lia.
+  - destruct (f_open (c_f c)); intros [= <- <-]; cbn; lia.
+  - destruct (match f_open (c_f c) with Some g' => Nat.eqb g g' | None => false end); [intros [= <- <-]; lia|].
+    destruct (f_last (c_f c)); intros [= <- <-]; cbn; lia.
+  - pose proof (after_answer_SH (c_s c) k a b) as Hm.
+    destruct (after_answer p tv (c_s c) k a b) as [s1 n]. destruct (nres_pc n). intros [= <- <-]. exact Hm.
+  - destruct t as [|th]; intros [= <- <-]; cbn; [lia|apply tail_apply_SH].
+  - intros [= <- <-]. cbn. apply incoming_SH.
+Qed.
+
+Lemma pstep_SH ps ev ps' o : pstep p tv ps ev = (ps', o) -> SH (c_s (p_c ps)) <= SH (c_s (p_c ps')).
+Proof.
+  unfold pstep. destruct ev as [e|h|t|i|i].
+  - destruct (blocked ps e); [intros [= <- <-]; lia|].
+    destruct (cstep p tv (p_c ps) e) as [c' o'] eqn:Hs. intros [= <- <-]. cbn.
+    destruct e as [d|h b t|h| |i x]; cbn in Hs; try (injection Hs as <- <-; cbn).
+    + unfold SH. cbn. lia.
+    + apply gossip_SH.
+    + apply sync_part_SH.
+    + apply sync_done_SH.
+    + eapply tstep_SH; exact Hs.
+  - destruct (p_g ps); [intros [= <- <-]; lia|].
+    destruct (local_head _); [|intros [= <- <-]; lia].
+    destruct (Verify _ _ _ _ _); [intros [= <- <-]; lia|].
+    unfold slh_check. intros [= <- <-]. cbn. unfold SH. cbn. apply store_append_mono.
+  - destruct (p_g ps) as [h|]; [|intros [= <- <-]; lia].
+    intros [= <- <-]. cbn. destruct t as [|th]; [unfold SH; cbn; lia|].
+    etransitivity; [|apply tail_apply_SH]. unfold SH. cbn. lia.
+  - destruct (c_pc (p_c ps) i) as [|k|k|k g|k a|net|net|]; try (intros [= <- <-]; lia).
+    destruct k; [intros [= <- <-]; lia|]. destruct a; try (intros [= <- <-]; lia).
+    destruct (_ || _); [intros [= <- <-]; lia|].
+    unfold slh_check. intros [= <- <-]. cbn. unfold SH. cbn. apply store_append_mono.
+  - destruct (find _ _) as [[j nh]|]; intros [= <- <-]; [|lia]. cbn. unfold SH. cbn. lia.
+Qed.
+
+Lemma prun_SH l : forall ps ps' tr, prun p tv ps l = (ps', tr) -> SH (c_s (p_c ps)) <= SH (c_s (p_c ps')).
+Proof.
+  induction l as [|e l IH]; intros ps ps' tr; cbn; [intros [= <- <-]; lia|].
+  destruct (pstep p tv ps e) as [q1 o1] eqn:Hs. destruct (prun p tv q1 l) as [q2 o2] eqn:Hr.
+  intros [= <- <-]. pose proof (pstep_SH _ _ _ _ Hs). pose proof (IH _ _ _ Hr). lia.
+Qed.
+
+(** localHead reads the pending head, then the store head; whatever runs in between
+    (the sync loop storing a range and removing it from pending, other calls, either
+    half of a setLocalHead), the header it returns is not below the local head at the
+    first read and not above the local head at the second *)
+Theorem two_reads ps l ps' tr : sbj_below (p_c ps) -> prun p tv ps l = (ps', tr) ->
+  L (c_s (p_c ps)) <= hgt (read2 (s_pend (c_s (p_c ps))) (s_store (c_s (p_c ps')))) <= L (c_s (p_c ps')).
+Proof.
+  intros Hb Hr. pose proof (prun_SH _ _ _ _ Hr) as Hs.
+  destruct (prun_upper p tv _ _ _ _ Hb Hr) as (_ & Hm & _).
+  rewrite read2_height. rewrite !L_max in *. unfold SH in Hs. lia.
+Qed.
+
+End tworeads.
+
+(** in the opposite order (store head first, pending head second) the result can drop
+    below the local head of the first read: store 10 / pending 20, the sync loop
+    completes in between (store 20, pending empty): 10 *)
+Example two_reads_reversed :
+  let s1 := SState (Some (rf_h 10)) (Some (rf_h 20)) 1000 in
+  let s2 := sync_done s1 in
+  L s1 = 20 /\ L s2 = 20 /\ hgt (read2 (s_pend s2) (s_store s1)) = 10 /\
+  hgt (read2 (s_pend s1) (s_store s2)) = 20.
+Proof. vm_compute. auto. Qed.
